@@ -67,6 +67,12 @@ func genCase(t *rapid.T, http bool) Case {
 		r.V1 = pct(t, "rv1", 10)
 		r.NoKU = pct(t, "rnoku", 25)
 		r.UTF8 = pct(t, "rutf8", 25)
+		if pct(t, "rpathlen", 20) {
+			r.PathLen = 1 + uni(t, "rpathlenv", 0, 1)
+		}
+		if pct(t, "rnamecons", 10) {
+			r.NameCons = 1 + uni(t, "rnameconsv", 0, 1)
+		}
 		if i > 0 && pct(t, "rtwin", 12) {
 			r.Twin = 1 + uni(t, "rtwinof", 0, 3)
 		}
@@ -91,6 +97,17 @@ func genCase(t *rapid.T, http bool) Case {
 		s.NoKU = pct(t, "cnoku", 30)
 		s.SigAlg = uni(t, "calg", 0, 2)
 		s.UTF8 = pct(t, "cutf8", 25)
+		s.BadAKI = s.AKI && pct(t, "cbadaki", 25)
+		if pct(t, "cpathlen", 30) {
+			s.PathLen = 1 + uni(t, "cpathlenv", 0, 1)
+		}
+		if pct(t, "cnamecons", 12) {
+			s.NameCons = 1 + uni(t, "cnameconsv", 0, 1)
+		}
+		if s.Role == "ca" && pct(t, "ceku", 15) {
+			s.EKU = pickFrom(t, "cekuv", []string{"ClientAuth", "CodeSigning", "ServerAuth", "OCSPSigning"})
+		}
+		s.CritUnknown = pct(t, "ccrit", 10)
 		if pct(t, "ctwin", 15) {
 			s.Twin = 1 + uni(t, "ctwinof", 0, 11)
 		}
@@ -152,6 +169,7 @@ func genCase(t *rapid.T, http bool) Case {
 		l.NotAfter = uni64(t, "lnotafter", -2*year, 30*year)
 	}
 	l.AKI = rapid.Bool().Draw(t, "laki")
+	l.BadAKI = l.AKI && pct(t, "lbadaki", 25)
 	l.SigAlg = uni(t, "lalg", 0, 2)
 
 	c.Variants = uint32(uni(t, "variants", 0, 31))
